@@ -16,11 +16,12 @@ from .. import core, gen, probes
 from ..core import group
 from . import c01
 
+KAPPA_OF = {"extrapol2": -1.0, "fromm": 0.0, "quick": 0.5, "extrapol3": 1.0 / 3.0, "centered": 1.0}
 KAPPAS = [("extrapol2", -1.0), ("fromm", 0.0), ("quick", 0.5), ("extrapol3", 1.0 / 3.0), ("centered", 1.0), ("extrapolk", 0.37), ("extrapolk", -0.6)]
 
 
 def setup(ctx):
-    ctx.require("const1d", "const2d", "linear1d", "extrapol1-adjacent", "kappa1d", "kappa2d", "first2d")
+    ctx.require("const1d", "const2d", "linear1d", "extrapol1-adjacent", "kappa1d", "kappa2d", "first2d", "reuse")
 
 
 def _lim_tol(rname, slope):
@@ -203,3 +204,46 @@ def kappa2d(ctx, rng, idx):
             worst = max(worst, max(np.max(np.abs(x)) for x in (eL, eR, eLp, eRp, fL, fR, fLp, fRp)) / sc)
     ctx.close(cls, worst, 1e-13, "kappa2d/face-states-not-kappa-formula" if k is not None else "first2d/face-states-not-adjacent-cell", {"nx": nx, "ny": ny, "kappa": k}, cls=cls)
     ctx.nontrivial("kappa2d", nx, ny, k)
+
+
+@group(quick=330, thorough=10000)
+def reuse(ctx, rng, idx):
+    """ONE reconstruction object used on a first mesh and then on a second mesh with the same number of cells but another
+    spacing (and on a periodic mesh of another length): nothing may be remembered from the first use"""
+    rname0 = gen.ALL_RECONS[idx % len(gen.ALL_RECONS)]
+    k = float(rng.choice([-1.0, 0.0, 0.5, 1.0 / 3.0, 1.0, 0.37])) if rname0 == "extrapolk" else None
+    num, rname = gen.recon(rname0, rng, k=k)
+    n = int(rng.integers(3, 20))
+    meshA, dA = gen.mesh1d(rng, ncell=n)
+    meshB, dB = gen.mesh1d(rng, ncell=n)
+    a = float(rng.choice([1.0, -1.0, 10 ** rng.uniform(-2, 2) * rng.choice([-1, 1])]))
+    b = float(rng.uniform(-2, 2) * abs(a))
+    model = conv.model(float(rng.choice([1.0, -1.5])))
+    bc = {"type": "dirichlet", "prim": [0.0]}
+    ctx.describe(recon=rname, meshA=dA, meshB=dB, a=a, b=b)
+    md.fvm(model, meshA, num, bcL=bc, bcR=bc).rhs(ffield.fdata(model, meshA, [a * meshA.xc + b + rng.uniform(-1, 1, n)]))      # first use (any data)
+    discB = md.fvm(model, meshB, num, bcL=bc, bcR=bc)
+    q = a * meshB.xc + b
+    discB.rhs(ffield.fdata(model, meshB, [q]))
+    exact = a * meshB.xf + b
+    scale = abs(a) * (meshB.xf[-1] - meshB.xf[0]) + abs(b) + 1e-300
+    pL, pR = discB.pL[0], discB.pR[0]
+    if rname == "extrapol1":
+        ctx.true("reuse", np.array_equal(pL[1:], q) and np.array_equal(pR[:-1], q), "reuse/extrapol1/not-adjacent-cell-value-on-second-mesh", None, cls="reuse")
+    elif n >= 3:
+        tol = 1e-13 + _lim_tol(rname, a)
+        err = max(np.max(np.abs(pL[2:n] - exact[2:n])), np.max(np.abs(pR[1:n - 1] - exact[1:n - 1]))) / scale
+        ctx.close("reuse:linear", err, tol, "reuse/linear-profile-not-exact-on-second-mesh/" + rname.split("(")[0], {"meshA": dA, "meshB": dB}, cls="reuse")
+    # periodic: operator on a second uniform mesh of another length (unlimited schemes)
+    kap = KAPPA_OF.get(rname0, k)
+    if kap is not None:
+        L1, L2 = float(np.round(rng.uniform(0.5, 2), 3)), float(np.round(rng.uniform(2.5, 6), 3))
+        m1, m2 = fmesh.unimesh(ncell=n, length=L1), fmesh.unimesh(ncell=n, length=L2)
+        aa = model.convcoef
+        md.fvm(model, m1, num).rhs(ffield.fdata(model, m1, [rng.uniform(-1, 1, n)]))
+        d2 = md.fvm(model, m2, num)
+        qq = rng.uniform(-1, 1, n)
+        r = d2.rhs(ffield.fdata(model, m2, [qq]))[0]
+        ref = _kappa_matrix(n, kap, aa, L2 / n) @ qq
+        ctx.close("reuse:kappa", np.max(np.abs(r - ref)) * (L2 / n) / abs(aa), 1e-12, "reuse/kappa-stencil-wrong-on-second-mesh/" + rname.split("(")[0], {"L1": L1, "L2": L2}, cls="reuse")
+    ctx.nontrivial("reuse", rname, dA, dB, a)
